@@ -15,19 +15,14 @@
    Statements kept here and checked by predicate on the implementation's
    outputs on every run (harness/props/C15.py):
 
-     C15_setfloat64_exact_partial (not closed): forall z bits s m e M exp2 r,
-       0 <= prec z <= MaxPrec -> fl_of_bits binary64 bits = FlFin s m e ->
-       fl_frexp_int binary64 m e = (M, exp2) ->
-       let p := sf64_prec z in
-       (the decimal expansion of M * 2^exp2 has at most p digits) ->
-       p < MaxPrec -> 10 ^ (p + 1) > 2 ^ |exp2|   (* prec+1 >= digits of 2^|exp2|: pow2 is exact *) ->
-       SetFloat64 z bits = OkR r ->
-       dform r = Ffinite /\ neg r = s /\ (mag r == M * 2^exp2)%Q /\ acc r = Exact.
-     (Without the last hypothesis the statement is false: C15_setfloat64_exact_refuted.)
+     (C15_setfloat64_exact_partial below is the planned C15_setfloat64_exact with the one
+      extra hypothesis 2^|exp2| < 10^(p+1); without it the statement is false:
+      C15_setfloat64_exact_refuted.)
      C15_setfloat64_1ulp, C15_setfloat_32ulp, C15_float_32ulp: error bounds, by predicate only.
      C15_float64_partial: Float64 x is one of the two binary64 neighbours of x, by predicate only. *)
 From Coq Require Import ZArith.
-From Dec Require Import L3.Decimal L3.Arith L3.Bin L3.Float L3.FloatProofs.
+From Coq Require Import QArith.
+From Dec Require Import Base.QPow L3.Decimal L3.Arith L3.Bin L3.Float L3.FloatProofs L3.ArithProofs L3.FloatExact L3.FloatExact2.
 Open Scope Z_scope.
 
 (* SetFloat64(±0) = ±0, SetFloat64(±Inf) = ±Inf, SetFloat64(NaN) panics with ErrNaN *)
@@ -74,6 +69,37 @@ Theorem C15_setfloat64_attrs : forall z bits z', 0 <= prec z <= MaxPrec ->
 Proof. exact SetFloat64_attrs. Qed.
 Print Assumptions C15_setfloat64_attrs.
 
+(* SetFloat64 of a float64 whose 53-bit integer mantissa M needs no scaling
+   (x = +-M, 2^52 <= |x| < 2^53): M rounded once to the receiver's precision
+   under its mode — OpPost of Props/C01.v: canonical result of the documented
+   precision and mode holding the correctly rounded value, accuracy included *)
+Theorem C15_setfloat64_int53 : forall z bits s m e M,
+  0 <= prec z <= MaxPrec ->
+  fl_of_bits binary64 bits = FlFin s m e -> fl_frexp_int binary64 m e = (M, 0) -> 0 < M < 2 ^ 53 ->
+  OpPost (sf64_prec z) (dmode z) s (scaled M 0) (SetFloat64 z bits).
+Proof. exact SetFloat64_int53_correct. Qed.
+Print Assumptions C15_setfloat64_int53.
+
+(* SetFloat64 stores x = +-M * 2^exp2 EXACTLY (value, Exact accuracy, canonical
+   form, precision and mode kept), for every finite float64 (normal or
+   subnormal: M is the integer mantissa normalised to 53 bits, -1126 <= exp2 <= 971),
+   when the value has at most p digits (x = N * 10^e10 with N < 10^p) and the
+   power of two it is scaled with fits the working precision p+1
+   (2^|exp2| < 10^(p+1); then every step of pow2's square-and-multiply loop is
+   exact).  pow2Q exp2 = 2^exp2 as a rational; the case exp2 = 0 is
+   C15_setfloat64_int53. *)
+Theorem C15_setfloat64_exact_partial : forall z bits s m e M exp2 N e10,
+  0 <= prec z <= 1073741824 ->
+  fl_of_bits binary64 bits = FlFin s m e -> fl_frexp_int binary64 m e = (M, exp2) -> 0 < M < 2 ^ 53 ->
+  exp2 <> 0 -> -2000 <= exp2 <= 2000 ->
+  let p := sf64_prec z in
+  2 ^ Z.abs exp2 < 10 ^ (p + 1) ->
+  (inject_Z M * pow2Q exp2 == scaled N e10)%Q -> 1 <= N < 10 ^ p -> -2000 <= e10 <= 2000 ->
+  exists r, SetFloat64 z bits = OkR r /\ dform r = Ffinite /\ neg r = s /\ (mag r == scaled N e10)%Q /\
+            acc r = Exact /\ prec r = p /\ dmode r = dmode z /\ WF r.
+Proof. exact SetFloat64_exact. Qed.
+Print Assumptions C15_setfloat64_exact_partial.
+
 (* K2: x = 6948775829277607844661e-26: Float64 x is not the binary64 value
    nearest to x (nearest64 rounds the exact rational once, ties to even) *)
 Theorem C15_float64_nearest_refuted :
@@ -111,3 +137,27 @@ Example C15_model_examples :
   acc (get (SetFloat64 z60 4877398396442247168)) = Exact /\ exp (get (SetFloat64 z60 4877398396442247168)) = 19 /\
   mant (get (SetFloat64 z60 4877398396442247168)) = (0 :: 1152921504606846976 :: nil)%list.
 Proof. vm_compute. repeat split. Qed.
+
+(* the hypotheses of C15_setfloat64_exact_partial are satisfiable: -1.5 into a
+   16-digit ToZero receiver (M = 3 * 2^51, exp2 = -52, value 15 * 10^-1) *)
+Example C15_exact_partial_instance :
+  let z := mkDec nil 0 16 ToZero Above Fzero false in
+  exists r, SetFloat64 z 13832806255468478464 = OkR r /\ dform r = Ffinite /\ neg r = true /\
+            (mag r == scaled 15 (-1))%Q /\ acc r = Exact /\ prec r = 16 /\ dmode r = ToZero /\ WF r.
+Proof.
+  intros z.
+  apply (C15_setfloat64_exact_partial z 13832806255468478464 true 6755399441055744 (-52) 6755399441055744 (-52) 15 (-1));
+    try (vm_compute; intuition congruence); try reflexivity.
+Qed.
+
+(* ... and beyond the table path of pow2 (|exp2| >= 64): 2^-70 = 5^70 * 10^-70
+   (49 digits) into a 50-digit AwayFromZero receiver (M = 2^52, exp2 = -122) *)
+Example C15_exact_partial_instance_loop :
+  let z := mkDec nil 0 50 AwayFromZero Exact Fzero false in
+  exists r, SetFloat64 z 4291930444884082688 = OkR r /\ dform r = Ffinite /\ neg r = false /\
+            (mag r == scaled (5 ^ 70) (-70))%Q /\ acc r = Exact /\ prec r = 50 /\ dmode r = AwayFromZero /\ WF r.
+Proof.
+  intros z.
+  apply (C15_setfloat64_exact_partial z 4291930444884082688 false 4503599627370496 (-1022 - 52 + 953 - 1) 4503599627370496 (-122) (5 ^ 70) (-70));
+    try (vm_compute; intuition congruence); try reflexivity.
+Qed.
